@@ -44,6 +44,8 @@ Inputs == Stress \cup Parked \cup Cold
 Cfgs == [x : {0}]
 
 \* which properties an operation's result belongs to besides C17
+\* (twoBad: an unsigned Response with two assertions that fail for DIFFERENT reasons: which error is reported is part of
+\* the outcome, and identical calls give identical outcomes)
 Inflating  == {"validateDeflate", "infoDeflate", "predecodeDeflate", "logoutRespDeflate", "refusedDeflate"}
 Redirects  == {"redirectAuthn", "redirectLogout"}
 Posts      == {"postAuthn", "postLogoutResp"}
